@@ -262,14 +262,23 @@ pub struct Seen {
 }
 
 /// The oracle comparison for one index file. `ls_files`: Some(extra args) to also cross-check with `git ls-files`.
-pub fn check_index_file(root: &Path, bytes: &[u8], ls_files: Option<&[&str]>, what: &str, seen: &mut Seen) -> Result<(), (String, String)> {
+pub fn check_index_file(
+    root: &Path,
+    bytes: &[u8],
+    ls_files: Option<&[&str]>,
+    known_entries: Option<&[idx::Ent]>,
+    what: &str,
+    seen: &mut Seen,
+) -> Result<Idx, (String, String)> {
     let (want, extra) = match idx::parse(bytes) {
         Ok(x) => x,
         Err(e) => vkit::machinery!("harness index parser failed on a git-written index ({what}) in {}: {e}", root.display()),
     };
     inc(&STATS.files);
     // oracle 2: git's own listing must agree with the harness parser (else the harness is wrong)
-    if let Some(extra_args) = ls_files {
+    // (skipped when the entries are byte-for-byte those of a file of the same case that ls-files already confirmed)
+    let already_confirmed = known_entries.map(|k| k == &want.entries[..]).unwrap_or(false);
+    if let (Some(extra_args), false) = (ls_files, already_confirmed) {
         let mut a = vec!["ls-files", "-z", "--stage", "--debug"];
         a.extend(extra_args.iter());
         let out = git::git(root, &a);
@@ -402,14 +411,14 @@ pub fn check_index_file(root: &Path, bytes: &[u8], ls_files: Option<&[&str]>, wh
             }
         }
     }
-    Ok(())
+    Ok(want)
 }
 
 /// Let git rewrite the index in every requested layout x {v4, v2/3} and check each file.
 pub fn check_variants(root: &Path, layouts: &[String], extra_cfg: &[&str], ls_files: Option<&[&str]>, seen: &mut Seen) -> Result<usize, (String, String)> {
     let mut n = 0;
     let Some(bytes) = read_index(root) else { return Ok(0) };
-    check_index_file(root, &bytes, ls_files, "index as first written", seen)?;
+    let first = check_index_file(root, &bytes, ls_files, None, "index as first written", seen)?;
     n += 1;
     for layout in layouts {
         for ver in ["4", "2"] {
@@ -422,7 +431,7 @@ pub fn check_variants(root: &Path, layouts: &[String], extra_cfg: &[&str], ls_fi
             if (ver == "4") != (v == 4) {
                 vkit::machinery!("git did not rewrite the index as version {ver} (found {v}) in {}", root.display());
             }
-            check_index_file(root, &bytes, ls_files, &format!("layout {layout}, requested version {ver} (file has v{v})"), seen)?;
+            check_index_file(root, &bytes, ls_files, Some(&first.entries), &format!("layout {layout}, requested version {ver} (file has v{v})"), seen)?;
             n += 1;
         }
     }
@@ -606,7 +615,7 @@ fn eval_split(c: &SplitCase) -> Verdict {
             for e in rd.flatten() {
                 if e.file_name().to_string_lossy().starts_with("sharedindex.") {
                     if let Ok(bytes) = std::fs::read(e.path()) {
-                        if let Err(x) = check_index_file(root, &bytes, None, "shared index file", &mut seen) {
+                        if let Err(x) = check_index_file(root, &bytes, None, None, "shared index file", &mut seen) {
                             r = Err(x);
                             break;
                         }
@@ -742,158 +751,198 @@ pub fn run(run: &'static Run) {
     run.assume("git 2.39.5 writes the index files and `git ls-files -z --stage --debug [--sparse]` lists them; the harness parser (idx.rs, written from index-format.txt / git sources) must agree with ls-files on every file or the run is a machinery error");
     run.assume("SHA-1 repositories only; fsmonitor extension not generated; tree-cache children are compared as a set ordered by name (gitoxide documents re-sorting)");
     run.assume("UNTR (untracked cache) content is compared too although gitoxide exposes it only through State::untracked() with private fields (read through a cfg(byron_gitoxide_verif) accessor); the property's mechanism list names decode::stat which only UNTR uses");
-    run.budget_secs(run.pick(36.0, 570.0));
+    run.budget_secs(run.pick(36.0, 560.0));
+    // development aid only: VERIF_ONLY=<sub> runs a single sub-check (the vacuity guards then fail by design)
+    let only = std::env::var("VERIF_ONLY").ok();
+    let want = |name: &str| only.as_deref().map(|o| o == name).unwrap_or(true);
 
     // ---- sub-check: entries ------------------------------------------------------------------------------------------
-    let all_t: &[&str] = &["F", "X", "L", "G", "N", "S", "V", "C123", "C23", "C12", "C13", "R"];
-    let small_t: &[&str] = &["F", "N", "C123"];
-    let layouts_entries: Vec<String> = if q { strs(&["plain", "t2", "t4"]) } else { strs(&["plain", "eoie", "t2", "t3", "t4", "ieot-only"]) };
-    run.sub_with(
-        "entries",
-        vkit::Opts::default().chunk(256),
-        |emit| {
-            for wt in worktrees(4) {
-                let ts: &[&str] = if q {
-                    if wt.len() <= 2 {
-                        &all_t[..]
-                    } else {
-                        small_t
-                    }
-                } else {
-                    all_t
-                };
-                assignments(&wt, ts, |paths| emit(Case { paths, post: String::new(), layouts: layouts_entries.clone() }));
-            }
-        },
-        eval_entries,
-    );
+    // treatments per worktree size (index = number of paths)
+    let t12: &[&str] = &["F", "X", "L", "G", "N", "S", "V", "C123", "C23", "C12", "C13", "R"];
+    let t10: &[&str] = &["F", "X", "L", "N", "S", "V", "C123", "C23", "C13", "R"];
+    let t8: &[&str] = &["F", "X", "N", "S", "V", "C123", "C23", "R"];
+    let t7: &[&str] = &["F", "X", "N", "S", "C123", "C23", "R"];
+    let t2: &[&str] = &["F", "C123"];
+    let by_size: [&[&str]; 5] = if q { [t12, t12, t7, t2, t2] } else { [t12, t12, t12, t10, t8] };
+    run.rule(format!(
+        "entries: treatments by worktree size 1..4 = {:?}; layouts {}",
+        &by_size[1..].iter().map(|t| t.join(",")).collect::<Vec<_>>(),
+        if q { "t2,t4" } else { "eoie,t2,t3,t4,ieot-only" }
+    ));
+    let layouts_entries: Vec<String> = if q { strs(&["t2", "t4"]) } else { strs(&["eoie", "t2", "t3", "t4", "ieot-only"]) };
+    if want("entries") {
+        run.sub_with(
+            "entries",
+            vkit::Opts::default().chunk(64),
+            |emit| {
+                for wt in worktrees(4) {
+                    assignments(&wt, by_size[wt.len()], |paths| emit(Case { paths, post: String::new(), layouts: layouts_entries.clone() }));
+                }
+            },
+            eval_entries,
+        );
+    }
 
     // ---- sub-check: tree cache + resolve undo after later index edits -------------------------------------------------
     let tree_t: &[&str] = if q { &["F", "N", "R"] } else { &["F", "X", "N", "R", "G"] };
-    let layouts_small: Vec<String> = strs(&["plain", "t2"]);
-    run.sub_with(
-        "tree-cache",
-        vkit::Opts::default().chunk(256),
-        |emit| {
-            for wt in worktrees(if q { 3 } else { 4 }) {
-                if wt.is_empty() {
-                    continue;
-                }
-                assignments(&wt, tree_t, |paths| {
-                    let mut posts = vec!["wt".to_string()];
-                    for (p, t) in &paths {
-                        if t != "G" {
-                            posts.push(format!("wt+mod:{p}"));
+    let layouts_small: Vec<String> = if q { strs(&["t2"]) } else { strs(&["plain", "t2"]) };
+    run.rule(format!(
+        "tree-cache: worktrees <= {} paths x treatments {} x post-ops (write-tree; then modify/remove each path ({}); add new path z, a/n, d/n)",
+        if q { 2 } else { 3 },
+        tree_t.join(","),
+        if q { "first path only" } else { "every path" }
+    ));
+    if want("tree-cache") {
+        run.sub_with(
+            "tree-cache",
+            vkit::Opts::default().chunk(64),
+            |emit| {
+                for wt in worktrees(if q { 2 } else { 3 }) {
+                    if wt.is_empty() {
+                        continue;
+                    }
+                    assignments(&wt, tree_t, |paths| {
+                        let mut posts = vec!["wt".to_string()];
+                        for (i, (p, t)) in paths.iter().enumerate() {
+                            if q && i > 0 {
+                                break;
+                            }
+                            if t != "G" {
+                                posts.push(format!("wt+mod:{p}"));
+                            }
+                            posts.push(format!("wt+rm:{p}"));
                         }
-                        posts.push(format!("wt+rm:{p}"));
-                    }
-                    posts.push("wt+new:z".into());
-                    if !wt.contains(&"a") {
-                        posts.push("wt+new:a/n".into());
-                    }
-                    posts.push("wt+new:d/n".into());
-                    for post in posts {
-                        emit(Case { paths: paths.clone(), post, layouts: layouts_small.clone() });
-                    }
-                });
-            }
-        },
-        eval_entries,
-    );
+                        posts.push("wt+new:z".into());
+                        if !q && !wt.contains(&"a") {
+                            posts.push("wt+new:a/n".into());
+                        }
+                        posts.push("wt+new:d/n".into());
+                        for post in posts {
+                            emit(Case { paths: paths.clone(), post, layouts: layouts_small.clone() });
+                        }
+                    });
+                }
+            },
+            eval_entries,
+        );
+    }
 
     // ---- sub-check: untracked cache ---------------------------------------------------------------------------------
-    run.sub_with(
-        "untracked-cache",
-        vkit::Opts::default().chunk(128),
-        |emit| {
-            let untracked_universe = ["u", "a/u", "d/u.ign", "d/e/u", "n/u", "n/m/u.glob"];
-            for wt in worktrees(if q { 2 } else { 4 }) {
-                let mut sets: Vec<Vec<&str>> = Vec::new();
-                enumerate::subsets(&untracked_universe, 0, if q { 1 } else { 2 }, |s| {
-                    if wt.contains(&"a") && s.contains(&"a/u") {
-                        return;
-                    }
-                    sets.push(s.to_vec());
-                });
-                for u in sets {
-                    for ignore in ["none", "root", "sub", "info", "global", "info+global"] {
-                        if ignore == "sub" && wt.contains(&"d/e/f") == false && !u.iter().any(|p| p.starts_with("d/")) {
-                            continue; // d/ would not exist
+    run.rule(format!(
+        "untracked-cache: tracked worktrees <= {} paths (all F) x subsets <= {} of untracked files {{u, a/u, d/u.ign, d/e/u, n/u, n/m/u.glob}} x ignore source {{none, .gitignore, d/.gitignore, info/exclude, core.excludesFile, both}}; directories aged so ctime != mtime; `git status` fills the cache",
+        if q { 1 } else { 3 },
+        if q { 1 } else { 2 }
+    ));
+    if want("untracked-cache") {
+        run.sub_with(
+            "untracked-cache",
+            vkit::Opts::default().chunk(64),
+            |emit| {
+                let untracked_universe = ["u", "a/u", "d/u.ign", "d/e/u", "n/u", "n/m/u.glob"];
+                for wt in worktrees(if q { 1 } else { 3 }) {
+                    let mut sets: Vec<Vec<&str>> = Vec::new();
+                    enumerate::subsets(&untracked_universe, 0, if q { 1 } else { 2 }, |s| {
+                        if wt.contains(&"a") && s.contains(&"a/u") {
+                            return;
                         }
-                        emit(UntrCase { tracked: strs(&wt), untracked: strs(&u), ignore: ignore.into(), layouts: layouts_small.clone() });
+                        sets.push(s.to_vec());
+                    });
+                    for u in sets {
+                        for ignore in ["none", "root", "sub", "info", "global", "info+global"] {
+                            if ignore == "sub" && !wt.contains(&"d/e/f") && !u.iter().any(|p| p.starts_with("d/")) {
+                                continue; // d/ would not exist
+                            }
+                            emit(UntrCase { tracked: strs(&wt), untracked: strs(&u), ignore: ignore.into(), layouts: layouts_small.clone() });
+                        }
                     }
                 }
-            }
-        },
-        eval_untracked,
-    );
+            },
+            eval_untracked,
+        );
+    }
 
     // ---- sub-check: split index (link extension) -------------------------------------------------------------------------
-    run.sub_with(
-        "split-index",
-        vkit::Opts::default().chunk(128),
-        |emit| {
-            for wt in worktrees(4) {
-                if wt.is_empty() {
-                    continue;
+    run.rule("split-index: every worktree (all F), `update-index --split-index`, then one of {nothing, modify p, remove p (each path), add z, add 0}; the split index and every sharedindex.* file are decoded (harness parser is the only oracle, ls-files shows the merged view)");
+    if want("split-index") {
+        run.sub_with(
+            "split-index",
+            vkit::Opts::default().chunk(64),
+            |emit| {
+                for wt in worktrees(4) {
+                    if wt.is_empty() {
+                        continue;
+                    }
+                    let mut ops = vec![String::new()];
+                    for p in &wt {
+                        ops.push(format!("mod:{p}"));
+                        ops.push(format!("rm:{p}"));
+                    }
+                    ops.push("new:z".into());
+                    ops.push("new:0".into());
+                    for op in ops {
+                        emit(SplitCase { tracked: strs(&wt), op, layouts: layouts_small.clone() });
+                    }
                 }
-                let mut ops = vec![String::new()];
-                for p in &wt {
-                    ops.push(format!("mod:{p}"));
-                    ops.push(format!("rm:{p}"));
-                }
-                ops.push("new:z".into());
-                ops.push("new:0".into());
-                for op in ops {
-                    emit(SplitCase { tracked: strs(&wt), op, layouts: layouts_small.clone() });
-                }
-            }
-        },
-        eval_split,
-    );
+            },
+            eval_split,
+        );
+    }
 
     // ---- sub-check: sparse index ------------------------------------------------------------------------------------------
-    run.sub_with(
-        "sparse-index",
-        vkit::Opts::default().chunk(64),
-        |emit| {
-            let cones: [&[&str]; 5] = [&[], &["a"], &["d"], &["d/e"], &["a", "d"]];
-            for wt in worktrees(4) {
-                if wt.is_empty() {
-                    continue;
-                }
-                let ts: &[&str] = if q { &["F"] } else { &["F", "X"] };
-                assignments(&wt, ts, |paths| {
-                    for cone in cones {
-                        if cone.contains(&"a") && wt.contains(&"a") {
-                            continue;
-                        }
-                        emit(SparseCase { paths: paths.clone(), cone: strs(cone), layouts: layouts_small.clone() });
+    run.rule(format!(
+        "sparse-index: every worktree x treatments {} committed, `sparse-checkout set --cone --sparse-index` with cone in {{(none), a, d, d/e, a+d}}",
+        if q { "F" } else { "F,X" }
+    ));
+    if want("sparse-index") {
+        run.sub_with(
+            "sparse-index",
+            vkit::Opts::default().chunk(32),
+            |emit| {
+                let cones: [&[&str]; 5] = [&[], &["a"], &["d"], &["d/e"], &["a", "d"]];
+                for wt in worktrees(4) {
+                    if wt.is_empty() {
+                        continue;
                     }
-                });
-            }
-        },
-        eval_sparse,
-    );
+                    let ts: &[&str] = if q { &["F"] } else { &["F", "X"] };
+                    assignments(&wt, ts, |paths| {
+                        for cone in cones {
+                            if cone.contains(&"a") && wt.contains(&"a") {
+                                continue;
+                            }
+                            emit(SparseCase { paths: paths.clone(), cone: strs(cone), layouts: layouts_small.clone() });
+                        }
+                    });
+                }
+            },
+            eval_sparse,
+        );
+    }
 
     // ---- sub-check: path lengths around the 0xfff name-length saturation ----------------------------------------------
-    run.sub_with(
-        "long-paths",
-        vkit::Opts::default().chunk(128),
-        |emit| {
-            let names = ["a", "4094", "4095", "4096", "4097", "zz"];
-            let ts: &[&str] = if q { &["F", "S"] } else { &["F", "S", "V", "C123"] };
-            let layouts = if q { strs(&["plain", "t2"]) } else { strs(&["plain", "t2", "t3"]) };
-            let mut subsets = Vec::new();
-            enumerate::subsets(&names, 1, if q { 2 } else { 3 }, |s| subsets.push(s.to_vec()));
-            for s in subsets {
-                enumerate::seqs(ts, s.len(), s.len(), |tt| {
-                    emit(LongCase { entries: s.iter().zip(tt).map(|(n, t)| (n.to_string(), t.to_string())).collect(), layouts: layouts.clone() })
-                });
-            }
-        },
-        eval_long,
-    );
+    run.rule(format!(
+        "long-paths: subsets of size 1..{} of paths {{a, len 4094, 4095, 4096, 4097, zz}} x treatments {} (index-info, zero stat)",
+        if q { 2 } else { 3 },
+        if q { "F,S" } else { "F,S,V,C123" }
+    ));
+    if want("long-paths") {
+        run.sub_with(
+            "long-paths",
+            vkit::Opts::default().chunk(64),
+            |emit| {
+                let names = ["a", "4094", "4095", "4096", "4097", "zz"];
+                let ts: &[&str] = if q { &["F", "S"] } else { &["F", "S", "V", "C123"] };
+                let layouts = if q { strs(&["t2"]) } else { strs(&["plain", "t2", "t3"]) };
+                let mut subsets = Vec::new();
+                enumerate::subsets(&names, 1, if q { 2 } else { 3 }, |s| subsets.push(s.to_vec()));
+                for s in subsets {
+                    enumerate::seqs(ts, s.len(), s.len(), |tt| {
+                        emit(LongCase { entries: s.iter().zip(tt).map(|(n, t)| (n.to_string(), t.to_string())).collect(), layouts: layouts.clone() })
+                    });
+                }
+            },
+            eval_long,
+        );
+    }
 
     // ---- evidence + vacuity guards ----------------------------------------------------------------------------------------
     let g = |c: &AtomicU64| c.load(Relaxed);
@@ -913,7 +962,7 @@ pub fn run(run: &'static Run) {
             "entry_ctime!=mtime": g(&s.entry_ctime_ne_mtime), "path_len>=0xfff": g(&s.long_path), "v4_long_strip": g(&s.v4_multibyte_strip),
         }),
     );
-    if !run.is_replay() {
+    if !run.is_replay() && only.is_none() {
         run.require("v2, v3 and v4 files were compared", g(&s.v2) > 0 && g(&s.v3) > 0 && g(&s.v4) > 0);
         run.require("files with EOIE and a multi-block IEOT were decoded (parallel entry path)", g(&s.parallel_entry_decode) > 0);
         run.require("tree caches incl. invalidated nodes were compared", g(&s.tree) > 0 && g(&s.tree_invalid) > 0);
